@@ -140,6 +140,16 @@ func TestVerifClose(t *testing.T) {
 			if _, err := ls.Get(context.Background(), 5); !errors.Is(err, ErrCacheClosed) {
 				tr.viol(fmt.Sprintf("loading Get after Close returned %v", err))
 			}
+		} else {
+			// a loading Get fails with the cache-closed error whatever the secondary tier holds for the key: a live copy,
+			// a copy past its deadline, nothing
+			_ = sec.Set(777003, 44, 1, 1)
+			for _, k := range []int{777001, 777003, 777004} {
+				if v, err := ls.Get(context.Background(), k); !errors.Is(err, ErrCacheClosed) {
+					tr.viol(fmt.Sprintf("C10: loading Get of key %d after Close had returned gave (%d, %v) instead of the cache-closed error (hybrid cache; the secondary tier held: %s)", k, v, err,
+						map[int]string{777001: "a live copy", 777003: "a copy past its deadline", 777004: "nothing"}[k]))
+				}
+			}
 		}
 		wdone := make(chan struct{})
 		go func() { s.Wait(); close(wdone) }()
